@@ -69,6 +69,15 @@ class CfgGen:
     def rule(self, depth=1):
         rng = self.rng
         r = rng.random()
+        if rng.random() < 0.12 and self.n >= 4:
+            # a defaulted Any whose ONLY non-default option is a plain group Any(x,y) that another rule also offers
+            its = rng.sample(self.names, 4); d0, grp, other = its[0], its[1:3], its[3]
+            group = lambda: {"k": "Any", "ch": [self.leaf(i) for i in grp], "id": None}
+            self.pending = {"k": "Imply", "ch": [self.leaf(other), {"k": "Any", "ch": [group(), {"k": "All", "ch": self.leaves(2, 3), "id": None}], "id": None}], "id": self.nid()}
+            return {"k": "CcAny", "ch": [self.leaf(d0), group()], "default": [d0], "id": self.nid()}
+        if getattr(self, "pending", None) is not None:
+            r, self.pending = self.pending, None
+            return r
         if self.parents and rng.random() < 0.45:
             # an untagged twin of the PARENT of a non-default branch: the plain restructured form
             # Any(default, Any(rest)) under the same (generated or explicit) id as the defaulted rule
